@@ -302,3 +302,38 @@ def load_known_open(pid):
     except FileNotFoundError:
         return []
     return [k for k in data.get("open", []) if k.get("property") == pid]
+
+
+class ConfigTimeout(BaseException):
+    """Raised by the per-configuration wall-clock guard (a BaseException: the monitors' `except Exception` clauses, which turn
+    library exceptions into violations, must not see it)."""
+
+
+class config_guard:
+    """with config_guard(run, seconds): ... - abandons ONE configuration that runs for too long (exact rationals can explode in size);
+    the configuration is counted under 'configurations-abandoned-by-time-guard', never judged."""
+
+    def __init__(self, run, seconds=240):
+        self.run, self.seconds = run, seconds
+
+    def __enter__(self):
+        import signal
+
+        def on_alarm(signum, frame):
+            raise ConfigTimeout()
+        try:
+            self.old = signal.signal(signal.SIGALRM, on_alarm)
+            signal.alarm(self.seconds)
+        except ValueError:          # not in the main thread
+            self.old = None
+        return self
+
+    def __exit__(self, et, ev, tb):
+        import signal
+        if self.old is not None:
+            signal.alarm(0)
+            signal.signal(signal.SIGALRM, self.old)
+        if et is ConfigTimeout:
+            self.run.count("configurations-abandoned-by-time-guard")
+            return True
+        return False
